@@ -27,8 +27,10 @@ EXPLANATION = (
     'the key type is asserted; name validation rejects positional-only and '
     'variadic parameters and unknown names unless **kwargs exists; '
     '(PK) index_to_key maps exactly the positional-or-keyword parameters to '
-    'their names. Not decided: agreement with a list/dict reference model for '
-    'every edit history (index arithmetic of the *args compaction).')
+    'their names. (DEFUSE) the *args compaction after a delete reads each moved value at '
+    'the position recorded in the element that survived into the slot. Not '
+    'decided: agreement with a list/dict reference model for every edit '
+    'history.')
 ASSUMPTIONS = [
     'truthiness of a value is accepted as a non-None fact on the true branch '
     'only',
@@ -50,8 +52,65 @@ def optional_props(ctx: Ctx):
   return out
 
 
+def compaction_source(ctx: Ctx, rs: RuleSet):
+  """DEFUSE: when deleting by index/slice compacts the *args tail, the value
+
+  written to a slot is read from the store at the position recorded in the
+  element that survived into that slot - not computed from lengths or a fixed
+  offset (an extended slice removes non-adjacent positions, so no single
+  offset is right).
+  """
+  rule = 'DEFUSE.compaction-source'
+  rs.declare(rule, 'the *args compaction moves into each slot the value of '
+             'the surviving element recorded for that slot', 1)
+  f = ctx.func(f'{BUILDABLE}.__delitem__')
+  survivors = {t.value.id for n in walk_function(f.node)
+               if isinstance(n, ast.Delete) for t in n.targets
+               if isinstance(t, ast.Subscript) and isinstance(
+                   t.value, ast.Name)}
+  sets = [c for c in ctx.calls(f) if isinstance(c.func, ast.Attribute) and
+          c.func.attr == '_arguments_set_value' and len(c.args) == 2]
+  if not survivors or not sets:
+    raise AnalysisError('Buildable.__delitem__: the survivor list (target of '
+                        '`del <list>[index]`) or the compaction store was '
+                        'not found')
+
+  def expand(e, depth=0):
+    yield e
+    for n in ast.walk(e):
+      if isinstance(n, ast.Name) and isinstance(n.ctx, ast.Load) and depth < 4:
+        for st in walk_function(f.node):
+          if isinstance(st, ast.Assign) and any(
+              isinstance(t, ast.Name) and t.id == n.id for t in st.targets):
+            yield from expand(st.value, depth + 1)
+
+  for c in sets:
+    ok = False
+    src = None
+    for e in expand(c.args[1]):
+      for n in ast.walk(e):
+        if isinstance(n, ast.Subscript) and isinstance(
+            n.ctx, ast.Load) and unparse(n.value).endswith('.__arguments__'):
+          src = n
+          # the subscript reads an element of the survivor list
+          for k in expand(n.slice):
+            for m in ast.walk(k):
+              if isinstance(m, ast.Subscript) and isinstance(
+                  m.value, ast.Name) and m.value.id in survivors:
+                ok = True
+    rs.check(ok, rule, f'{f.qualname}:`{unparse(c)[:50]}`',
+             f'the moved value is `{unparse(src)}`: its position comes from '
+             f'the surviving element' if ok else
+             f'the value moved by `{unparse(c)[:60]}` is '
+             f'`{unparse(src) if src is not None else unparse(c.args[1])}`, '
+             'whose position is not read from the surviving element for that '
+             f'slot ({sorted(survivors)}): after `del cfg[1::2]` (non-adjacent '
+             'deletions) the tail holds the wrong values', ctx.loc(f, c))
+
+
 def run(ctx: Ctx, rs: RuleSet, tier: str):
   p = ctx.p
+  compaction_source(ctx, rs)
   props = optional_props(ctx)
   if 'var_positional_start' not in props:
     raise AnalysisError('SignatureInfo.var_positional_start is no longer an '
